@@ -20,3 +20,35 @@ def checkEventIdServer (v : Nat) : Bool := decide (v ≤ 2)
 def checkJoinAuthorised (v : Nat) : Bool := decide (8 ≤ v)
 
 end Ruma.Spec.EventSign
+
+namespace Ruma.Spec.EventSign
+open Ruma
+
+/-- The server name of a user ID or of a v1/v2 event ID: everything after the first `:`. -/
+def serverPart : Str → Option Str
+  | [] => none
+  | c :: t => if c = 58 then some t else serverPart t
+
+/-- "An `m.room.member` invite created from a third-party invite": type `m.room.member`,
+`content.membership = "invite"`, and `content.third_party_invite` present (an object). -/
+def isThirdPartyInvite (e : Obj) : Bool :=
+  match Obj.get e (bs "type"), Obj.get e (bs "content") with
+  | some (.str ty), some (.obj c) =>
+    decide (ty = bs "m.room.member") &&
+      (match Obj.get c (bs "membership"), Obj.get c (bs "third_party_invite") with
+       | some (.str m), some (.obj _) => decide (m = bs "invite")
+       | _, _ => false)
+  | _, _ => false
+
+/-- `Required v e s`: the specification demands a signature of server `s` on event `e` in room
+version `v`. The three clauses of the property statement. -/
+def Required (v : Nat) (e : Obj) (s : Str) : Prop :=
+  (isThirdPartyInvite e = false ∧
+     ∃ u, Obj.get e (bs "sender") = some (.str u) ∧ serverPart u = some s) ∨
+  (checkEventIdServer v = true ∧
+     ∃ i, Obj.get e (bs "event_id") = some (.str i) ∧ serverPart i = some s) ∨
+  (checkJoinAuthorised v = true ∧
+     ∃ c a, Obj.get e (bs "content") = some (.obj c) ∧
+       Obj.get c (bs "join_authorised_via_users_server") = some (.str a) ∧ serverPart a = some s)
+
+end Ruma.Spec.EventSign
